@@ -53,6 +53,10 @@ inline std::vector<PVal> paramMenu() {
     m.push_back({"s0", [](Param& p) { p.set(std::vector<std::string>() = {""}); }});
     m.push_back({"se", [](Param& p) { p.set(std::vector<std::string>() = {}); }});
     m.push_back({"i321", [](Param& p) { p.set(std::vector<int>() = {1, 2, 3, 4, 5, 6}, {3, 2, 1}); }});
+    m.push_back({"i11", [](Param& p) { p.set(std::vector<int>() = {-5}, {1, 1}); }});                       // one value, two dimensions
+    m.push_back({"f111", [](Param& p) { p.set(std::vector<float>() = {6.5f}, {1, 1, 1}); }});
+    m.push_back({"sctl", [](Param& p) { p.set(std::vector<std::string>() = {"tab\t", "cr\r\n", "x y", "\f"}); }});   // control white-space is content, only spaces are padding
+    m.push_back({"s11", [](Param& p) { p.set(std::vector<std::string>() = {"solo"}, {1, 1}); }});
     return m;
 }
 inline std::string descMenu(const std::string& id) {
